@@ -56,6 +56,7 @@ package util
 // cleanfrom: ghost - the end of the last ASCII byte (where the cleaned tail begins)
 //@ ghost scratch var cleanfrom int
 //@ func CleanUTF8(s []byte) []byte
+//@   property C07 C09 C12 C15
 //@   flag counted
 //@   modifies s[:], cleanfrom
 //@   ghostset cleanfrom := endPos
